@@ -186,7 +186,8 @@ def FInv (it : WpIter) : Prop := WF it.flds ∧ (it.read = true → WF it.lge.fi
 
 theorem wpInit_FInv (kv : Bytes → Option Bytes) (hkv : ∀ s f, kv s = some f → WF f) (buf : Bytes) (it : WpIter)
     (h : wpInit kv buf = .ok it) : FInv it := by
-  unfold wpInit at h
+  have h := wpInit_core kv buf it h
+  unfold wpInitCore at h
   obtain ⟨n1, tags, _, _, h⟩ := next_eq_ok h
   obtain ⟨n2, flds, _, _, h⟩ := next_eq_ok h
   obtain ⟨n3, ln, _, _, h⟩ := next_eq_ok h
